@@ -36,6 +36,7 @@ func c05States(c mcfg) []c05State {
 	st = append(st, c05State{"dir-via-in-place-walk", []mevent{att, clone, {Op: "walk", Fid: 1, Newfid: 1, Names: []string{"d"}}}})
 	st = append(st, c05State{"file-via-two-element-in-place-walk", []mevent{att, clone, {Op: "walk", Fid: 1, Newfid: 1, Names: []string{"d", "h"}}}})
 	st = append(st, c05State{"dir-after-partial-in-place-walk", []mevent{att, clone, {Op: "walk", Fid: 1, Newfid: 1, Names: []string{"d", "zz"}}}})
+	st = append(st, c05State{"dir-after-partial-in-place-walk-ending-at-a-file", []mevent{att, clone, {Op: "walk", Fid: 1, Newfid: 1, Names: []string{"f", "zz"}}}})
 	st = append(st, c05State{"dir-after-failed-walk-to-new-fid", []mevent{att, dir, {Op: "walk", Fid: 1, Newfid: 2, Names: []string{"zz"}}}})
 	st = append(st, c05State{"file-after-refused-open", []mevent{att, file, {Op: "open", Fid: 1, Mode: 1}, {Op: "open", Fid: 1, Mode: 0}}})
 	st = append(st, c05State{"file-after-failed-open", []mevent{att, file, {Op: "open", Fid: 1, Mode: 1, ImplErr: true}}})
